@@ -77,7 +77,14 @@ func setValue(c *Corpus, t *T, w *W, dst reflect.Value) {
 		}
 		dst.Set(sl)
 	case Map:
-		m := reflect.MakeMapWithSize(dst.Type(), len(w.L)/2)
+		// Half of the maps are built the way user code usually builds them: by inserting into an empty map without a
+		// size hint, which can leave the runtime's map in the middle of an incremental growth.
+		var m reflect.Value
+		if n := len(w.L) / 2; n%2 == 1 {
+			m = reflect.MakeMap(dst.Type())
+		} else {
+			m = reflect.MakeMapWithSize(dst.Type(), n)
+		}
 		for i := 0; i+1 < len(w.L); i += 2 {
 			k := reflect.New(dst.Type().Key()).Elem()
 			setValue(c, t.Key, w.L[i], k)
